@@ -55,6 +55,13 @@ def schema_list(tier):
             {"name": "x", "type": {"type": "fixed", "name": "X", "namespace": "", "size": 2}},
             {"name": "y", "type": {"type": "fixed", "name": "X", "size": 3}}, {"name": "z", "type": "X"}, {"name": "w", "type": {"type": "array", "items": "ns.X"}}]},
         {"type": "error", "name": "Err", "fields": [{"name": "m", "type": "string"}]},
+        {"type": "record", "name": "Job", "fields": [
+            {"name": "policy", "type": {"type": "record", "name": "Policy", "fields": [
+                {"name": "retries", "type": "int", "default": 0}, {"name": "label", "type": ["null", "string"], "default": None},
+                {"name": "flag", "type": "boolean", "default": False}, {"name": "mode", "type": "string"}]}},
+            {"name": "fallback", "type": "Policy"}, {"name": "opt", "type": ["Policy", "null"]}, {"name": "many", "type": {"type": "array", "items": "Policy"}}]},
+        {"type": "record", "name": "shop.CustomerV2", "fields": [{"name": "id", "type": "int"}, {"name": "prev", "type": ["null", {"type": "record", "name": "Customer", "fields": [{"name": "id", "type": "int"}]}]},
+                                                                 {"name": "k", "type": {"type": "enum", "name": "Kind", "symbols": ["A"]}}]},
     ] + [
         # named types whose simple name is one of the specification's non-primitive keywords: ordinary names
         {"type": "record", "name": "Holder", "namespace": ns, "fields": [
@@ -129,6 +136,15 @@ def rewrites(s, path, kind):
         with_node({k: n[k] for k in reversed(list(n))}, "attr-order")
         if t in ("record", "enum", "fixed", "error"):
             with_node(dict(n, aliases=["Alias1", "x.y.Alias2"]), "aliases")
+            # aliases that spell the names of OTHER types of the same schema (defined before or after): still only aliases
+            try:
+                others = [full for full in names.resolve(copy.deepcopy(s))[1]]
+            except Exception:
+                others = []
+            mine = n.get("name", "").rsplit(".", 1)[-1]
+            al = [o for o in others if o.rsplit(".", 1)[-1] != mine] + [o.rsplit(".", 1)[-1] for o in others if o.rsplit(".", 1)[-1] != mine]
+            if al:
+                with_node(dict(n, aliases=sorted(set(al))), "aliases-naming-other-types")
         if t == "enum":
             with_node(dict(n, default=n["symbols"][-1]), "enum-default")
         if t in PRIMS:
@@ -156,6 +172,16 @@ def rewrites(s, path, kind):
         with_node(dict(f, order="descending"), "field-order")
         with_node(dict(f, custom=True), "field-custom")
         with_node({k: f[k] for k in reversed(list(f))}, "field-attr-order")
+        # a record-typed field (by name, or first union branch) given a PARTIAL default: only the sub-fields that have no
+        # default of their own are spelled out
+        try:
+            ft = f["type"][0] if isinstance(f["type"], list) and f["type"] else f["type"]
+            rdef = _inline(s, ft) if isinstance(ft, str) else ft
+            if isinstance(rdef, dict) and rdef.get("type") == "record" and any("default" in sf for sf in rdef["fields"]):
+                partial = {sf["name"]: family.default_for(_inline(s, sf["type"])) for sf in rdef["fields"] if "default" not in sf}
+                with_node(dict(f, default=partial), "field-partial-record-default")
+        except (KeyError, TypeError):
+            pass
         if "default" in f:
             with_node({k: v for k, v in f.items() if k != "default"}, "field-drop-default")
         else:
